@@ -259,16 +259,7 @@ def pathMatchSpecB (syn : Syntax) (mode : Filemode) (pattern path base : Str) : 
 def starOkR : Str → Bool
   | [] => true
   | c :: r =>
-    if c == '*' then
-      match r with
-      | c2 :: r2 => if c2 == '*' then hd r2 != '*' && hd r2 != '?' && starOkR r2 else c2 != '?' && starOkR (c2 :: r2)
-      | [] => true
-    else starOkR r
-
-/-- no run of three or more `*` (no documented meaning) -/
-def noTripleStar : Str → Bool
-  | [] => true
-  | c :: r => !(c == '*' && hd r == '*' && hd r.tail == '*') && noTripleStar r
+    (if c == '*' then (if hd r == '*' then hd r.tail != '*' && hd r.tail != '?' else hd r != '?') else true) && starOkR r
 
 /-- a pattern that ends with a separator tested against a regular file: the canonical pattern must not
     end with `*` or consist of the root only -/
@@ -289,7 +280,6 @@ def MatchOk (v : Variant) (syn : Syntax) (mode : Filemode) (pattern path base : 
   CanonOk v (rawPattern syn pattern base).1 (rawPattern syn pattern base).2 &&
   CanonOk v (rawPath syn path base).1 (rawPath syn path base).2 &&
   (v.star || starOkR (canonPattern syn pattern base).reverse) &&
-  noTripleStar (canonPattern syn pattern base) &&
   (v.dirsep || dirSepOk syn mode pattern base)
 
 end Cppcheck.PathMatch
